@@ -31,14 +31,17 @@ CFG = gdoc.Cfg(words=st.sampled_from(HOSTILE), inlines=['t', 'em', 'code'], bloc
 head = st.fixed_dictionaries({
     'title': st.lists(st.sampled_from(TITLES), min_size=1, max_size=3).map(' '.join),
     'style': st.sampled_from(['atx', 'atxc', 'setext']), 'level': st.integers(1, 6), 'delta': st.integers(-2, 1),
+    'blanks': st.sampled_from(['', '', '', ' ', '  ', '\t']),       # blanks after the heading text / closing hashes
     'body': st.one_of(st.just(None), gdoc.blocks(CFG)), 'lead': st.sampled_from(['\n', '\n\n', '\n']), 'trail': st.sampled_from(['\n', '\n\n', '\n\n\n']),
 })
 
 
 def strategy(tier):
     return st.fixed_dictionaries({
-        'meta': st.lists(st.tuples(st.sampled_from(['Title', 'Author', 'Date', 'My Key', 'Keywords']), st.sampled_from(['A Title', 'Jane & John <j@x>', '"2020"', 'x\ty', 'é中 & co'])),
+        'meta': st.lists(st.one_of(st.tuples(st.sampled_from(['Title', 'Author', 'Date', 'My Key', 'Keywords']), st.sampled_from(['A Title', 'Jane & John <j@x>', '"2020"', 'x\ty', 'é中 & co'])),
+                                   st.tuples(st.just('Base Header Level'), st.sampled_from(['2', '3']))),
                          max_size=4, unique_by=lambda t: t[0]),
+        'engine_leg': st.booleans(),
         'preamble': st.one_of(st.just(None), gdoc.blocks(CFG)),
         'heads': st.lists(head, min_size=0, max_size=10),
         'nested': st.booleans(), 'crlf': st.booleans(), 'final_nl': st.booleans(),
@@ -98,9 +101,9 @@ def build(case):
         if not src.endswith('\n\n') and src:
             src += '\n' if src.endswith('\n') else '\n\n'
         if style == 'atx':
-            line = '#' * level + ' ' + title + '\n'
+            line = '#' * level + ' ' + title + h.get('blanks', '') + '\n'
         elif style == 'atxc':
-            line = '#' * level + ' ' + title + ' ' + '#' * level + '\n'
+            line = '#' * level + ' ' + title + ' ' + '#' * level + h.get('blanks', '') + '\n'
         else:
             if not meta and not heads and not pre and KEYLINE.match(title):
                 title = 'T ' + title
@@ -184,6 +187,11 @@ def check(case, ctx):
     levels = [l for _, l, _ in heads]
     proper = bool(levels) and levels[0] == 1 and all(b <= a + 1 for a, b in zip(levels, levels[1:]))
     if proper:
+        # the outline nests by heading level (a base header level shifts every heading alike and changes nothing here)
+        hitems = [it for it in items if it[0] not in ('>>Preamble<<', '>>Metadata<<')][:len(heads)]
+        for (t, lvl, _), it in zip(heads, hitems):
+            if it[2] != lvl:
+                raise fail('outline:nesting', 'heading %r of level %d sits at outline depth %d' % (t, lvl, it[2]))
         cext = ext | EXT['COMPLETE']
         h0 = w.convert(src, 'html', cext).out
         t1 = w.call('opml2text', 's', opml)
@@ -202,6 +210,23 @@ def check(case, ctx):
         if h2 != h0:
             raise fail('roundtrip:not-a-fixed-point', 'second export/import changed the rendering\ntext1=%r\ntext2=%r' % (text1[:600], text2[:600]))
         ctx.cls('roundtrip_checked')
+        if case.get('engine_leg'):
+            # one engine that holds the OPML source and is converted several times: every conversion shows the imported document
+            from lib.worker import FMT
+            w.call('pool', 'init')
+            eid = w.call('enew', cext | EXT['PARSE_OPML'], opml)[1]
+            try:
+                e1 = w.call('econv', eid, 'e', FMT['html'], '')[1]
+                em = w.call('econv', eid, 'ed', FMT['mmd'], '')[1]
+                e2 = w.call('econv', eid, 'e', FMT['html'], '')[1]
+                em2 = w.call('econv', eid, 'ed', FMT['mmd'], '')[1]
+            finally:
+                w.call('efree', eid)
+                w.call('pool', 'drain')
+            if e1.rstrip(b'\n') != h1.rstrip(b'\n') or e2 != e1 or em2 != em or not em.strip():
+                raise fail('import:reused-engine', 'an engine holding the OPML source gave different results on later conversions\nfirst html=%r\nsecond html=%r\nmmd=%r\nmmd again=%r'
+                           % (e1[-300:], e2[-300:], em[:200], em2[:200]))
+            ctx.cls('reused_engine_checked')
     if len(heads) >= 2 and any(b > a for a, b in zip(levels, levels[1:])) and re.search(rb'[&<>"\']', b''.join(n for _, _, n in heads)):
         ctx.nontrivial(src)
         ctx.sample(src.decode('utf-8', 'replace'))
